@@ -114,12 +114,12 @@ B("C13-keyspace-own-flag", "C13", "C13:R-C13.3:keyspace::Keyspace::create_new", 
             stats: db.stats.clone(),
             lock_file: db.lock_file.clone(),""")
 B("C13-worker-error-no-poison", "C13", "C13:R-C13.4", "src/worker_pool.rs",
-  """                                    log::error!("Worker #{i} crashed: {e:?}");
-                                    poison_dart.poison();
-                                    return Err(e);""",
-  """                                    log::error!("Worker #{i} crashed: {e:?}");
-                                    let _ = &poison_dart;
-                                    return Err(e);""")
+  """                                        log::error!("Worker #{i} crashed: {e:?}");
+                                        poison_dart.poison();
+                                        return Err(e);""",
+  """                                        log::error!("Worker #{i} crashed: {e:?}");
+                                        let _ = &poison_dart;
+                                        return Err(e);""")
 B("C13-persist-result-ok", "C13", "C13:R-C13", KS,
   """        if !self.config.manual_journal_persist {
             journal_writer
@@ -1717,12 +1717,11 @@ B("C17-drop-no-wait", "C17", "C17:R-C17.4:<db::DatabaseInner as std::ops::Drop>:
             std::thread::sleep(std::time::Duration::from_micros(10));
         }""")
 B("C17-worker-no-decrement", "C17", "C17:R-C17.4:worker_pool::WorkerPool::start::{closure#0}::{closure#0}", "src/worker_pool.rs",
-  """                                        log::debug!("Worker #{i} closes because DB is dropping");
-                                        thread_counter.fetch_sub(1, Relaxed);
-                                        return Ok(());""",
-  """                                        log::debug!("Worker #{i} closes because DB is dropping");
-                                        let _ = &thread_counter;
-                                        return Ok(());""")
+  """                            let _thread_counter = ThreadCounterGuard(thread_counter);
+""",
+  """                            let _thread_counter = ThreadCounterGuard(Arc::new(AtomicUsize::new(1)));
+                            let _ = &thread_counter;
+""")
 
 # ======================================================================== C18
 B("C18-no-assigner-on-recovery", "C18", "C18:R-C18.1:recovery::recover_keyspaces", REC,
@@ -2285,3 +2284,156 @@ B("C10-rotate-outside-lock", "C10", "C10:R-C10.3:worker_pool::worker_tick", WP,
                 let mut journal_writer = ctx.supervisor.journal.get_writer()?;
 
                 if too_big {""")
+
+
+# ======================================================================== reverted fixes 7 and 8, third wave
+WP = "src/worker_pool.rs"
+B("F07-C17-worker-error-keeps-counter", "C17", "C17:R-C17.4:worker_pool::WorkerPool::start::{closure#0}::{closure#0}:worker-decrements-counter-on-failure", WP,
+  """                            let _thread_counter = ThreadCounterGuard(thread_counter);
+
+                            loop {
+                                match worker_tick(&worker_state) {
+                                    Ok(should_abort) => {
+                                        if should_abort {
+                                            log::debug!(
+                                                "Worker #{i} closes because DB is dropping"
+                                            );
+                                            return Ok(());""",
+  """                            loop {
+                                match worker_tick(&worker_state) {
+                                    Ok(should_abort) => {
+                                        if should_abort {
+                                            log::debug!(
+                                                "Worker #{i} closes because DB is dropping"
+                                            );
+                                            thread_counter.fetch_sub(1, Relaxed);
+                                            return Ok(());""")
+B("C17-worker-guard-forgotten", "C17", "C17:R-C17.4:worker_pool::WorkerPool::start::{closure#0}::{closure#0}:worker-decrements-counter", WP,
+  """                            let _thread_counter = ThreadCounterGuard(thread_counter);
+""",
+  """                            std::mem::forget(ThreadCounterGuard(thread_counter));
+""")
+E2("EQ-worker-explicit-decrements",
+   [(WP, """                            let _thread_counter = ThreadCounterGuard(thread_counter);
+
+                            loop {
+                                match worker_tick(&worker_state) {
+                                    Ok(should_abort) => {
+                                        if should_abort {
+                                            log::debug!(
+                                                "Worker #{i} closes because DB is dropping"
+                                            );
+                                            return Ok(());""",
+     """                            loop {
+                                match worker_tick(&worker_state) {
+                                    Ok(should_abort) => {
+                                        if should_abort {
+                                            log::debug!(
+                                                "Worker #{i} closes because DB is dropping"
+                                            );
+                                            thread_counter.fetch_sub(1, Relaxed);
+                                            return Ok(());"""),
+    (WP, """                                        poison_dart.poison();
+                                        return Err(e);""",
+     """                                        poison_dart.poison();
+                                        thread_counter.fetch_sub(1, Relaxed);
+                                        return Err(e);""")], props=["C17", "C13", "C14"])
+for _n in ("first_key_value", "last_key_value", "is_empty"):
+    B("F08-C06-%s-at-max" % _n, "C06", "C06:R-C06.5:keyspace::Keyspace::%s" % _n, KS,
+      "        self.tree.%s(nonce.instant, None)" % _n,
+      "        self.tree.%s(SeqNo::MAX, None)" % _n)
+B("C06-keyspace-len-at-visible-counter", "C06", "C06:R-C06.5:keyspace::Keyspace::is_empty", KS,
+  "        self.tree.is_empty(nonce.instant, None)",
+  "        self.tree.is_empty(self.supervisor.seqno.get(), None)")
+E("EQ-first-kv-via-iter", KS,
+  """        let nonce = self.supervisor.snapshot_tracker.open();
+        self.tree.first_key_value(nonce.instant, None).map(Guard)""",
+  """        let snapshot = self.supervisor.snapshot_tracker.open();
+        let instant = snapshot.instant;
+        self.tree.first_key_value(instant, None).map(Guard)""", props=["C05", "C06"])
+
+_PERSIST_MATCH = """        match mode {
+            PersistMode::SyncAll => self.file.get_mut().sync_all().inspect_err(|e| {
+                log::error!(
+                    "Failed to fsync journal file at {}: {e:?}",
+                    self.path.display(),
+                );
+            }),
+            PersistMode::SyncData => self.file.get_mut().sync_data().inspect_err(|e| {
+                log::error!(
+                    "Failed to fsyncdata journal file at {}: {e:?}",
+                    self.path.display(),
+                );
+            }),
+            PersistMode::Buffer => Ok(()),
+        }
+    }
+"""
+E("EQ-persist-mode-helper-fn", WRITER, _PERSIST_MATCH,
+  """        self.sync(mode).inspect_err(|e| {
+            log::error!("Failed to sync journal file at {}: {e:?}", self.path.display());
+        })
+    }
+
+    fn sync(&mut self, mode: PersistMode) -> std::io::Result<()> {
+        let file = self.file.get_mut();
+        match mode {
+            PersistMode::SyncAll => file.sync_all(),
+            PersistMode::SyncData => file.sync_data(),
+            PersistMode::Buffer => Ok(()),
+        }
+    }
+""", props=["C02", "C09", "C13", "C14"])
+B("S2-C13-sync-retry-swallows-eio", "C13", "C13:R-C13.6:journal::writer::Writer::sync", WRITER, _PERSIST_MATCH,
+  """        self.sync(mode).inspect_err(|e| {
+            log::error!("Failed to sync journal file at {}: {e:?}", self.path.display());
+        })
+    }
+
+    fn sync(&mut self, mode: PersistMode) -> std::io::Result<()> {
+        let file = self.file.get_mut();
+        let mut attempts_left = 3;
+        loop {
+            let result = match mode {
+                PersistMode::SyncAll => file.sync_all(),
+                PersistMode::SyncData => file.sync_data(),
+                PersistMode::Buffer => return Ok(()),
+            };
+            attempts_left -= 1;
+            match result {
+                Err(e) if attempts_left > 0 => {
+                    log::warn!("sync failed, trying again: {e:?}");
+                }
+                result => return result,
+            }
+        }
+    }
+""")
+B("C13-writer-flush-error-ignored", "C13", "C13:R-C13.6:journal::writer::Writer::persist", WRITER,
+  """            self.file.flush().inspect_err(|e| {
+                log::error!(
+                    "Failed to flush journal IO buffers at {}: {e:?}",
+                    self.path.display(),
+                );
+            })?;""",
+  """            if let Err(e) = self.file.flush() {
+                log::error!(
+                    "Failed to flush journal IO buffers at {}: {e:?}",
+                    self.path.display(),
+                );
+            }""")
+B("S2-C03-reader-eof-no-truncate", "C03", "C03:R-C03.3:<journal::reader::JournalReader as std::iter::Iterator>::next:raw-none", "src/journal/reader.rs",
+  """                        std::io::ErrorKind::UnexpectedEof | std::io::ErrorKind::Other => {""",
+  """                        std::io::ErrorKind::UnexpectedEof => None,
+
+                        std::io::ErrorKind::Other => {""")
+B("S2-C02-on-close-truncates-to-raw-pos", "C02", "C02:R-C02.7:journal::batch_reader::JournalBatchReader::on_close:truncate_to#1", "src/journal/batch_reader.rs",
+  """            // Discard batch
+            self.truncate_to(self.last_valid_pos)?;""",
+  """            // Discard batch
+            self.truncate_to(self.reader.last_valid_pos)?;""")
+B("C03-raw-truncate-to-stream-pos", "C03", "C03:R-C03.3:journal::reader::JournalReader::maybe_truncate_file_to_last_valid_pos", "src/journal/reader.rs",
+  """        if stream_pos > self.last_valid_pos {
+            self.truncate_file(self.last_valid_pos)?;""",
+  """        if stream_pos < self.last_valid_pos {
+            self.truncate_file(self.last_valid_pos)?;""")
